@@ -10,7 +10,7 @@ TraceLog == ndJsonDeserialize(IOEnv.TRACE)
 ResetTo(arg) ==
   /\ mode' = arg.mode
   /\ max' = IF arg.mode \in {"ctx", "stream"} THEN arg.max ELSE 0
-  /\ target' = (arg.mode = "stream" \/ (arg.mode = "ctx" /\ arg.target = 1))
+  /\ target' = ((arg.mode = "stream" /\ arg.via = "input") \/ (arg.mode = "ctx" /\ arg.target = 1))
   /\ attached' = (arg.mode = "stream" \/ (arg.mode = "ctx" /\ arg.attached = 1))
   /\ own' = IF arg.mode = "ctx" THEN 1 ELSE 0
   /\ clen' = 0 /\ cval' = <<>> /\ handles' = [h \in 1..MaxH |-> <<>>]
@@ -32,7 +32,9 @@ Step(ev) ==
     [] ev.a = "drelease"  -> ReleaseHandle(ev.arg.h, ev.arg.tv)
     [] ev.a = "release"   -> ReleaseCtx(ev.arg.tv, Len(ev.obs.sends) > 0)
     [] ev.a = "addref"    -> AddRef
-    [] ev.a = "srequest"  -> StreamRequest(ev.arg.id, ev.arg.payload, ev.arg.act, ev.arg.data, ev.arg.hret)
+    [] ev.a = "srequest"  -> IF ev.arg.act = "defer" THEN StreamDefer(ev.arg.id, ev.arg.payload, ev.arg.h)
+                             ELSE StreamRequest(ev.arg.id, ev.arg.payload, ev.arg.act, ev.arg.data, ev.arg.hret)
+    [] ev.a = "sdreply"   -> StreamDeferred(ev.arg.h, ev.arg.data)
     [] ev.a = "slate"     -> StreamLate(ev.arg.data)
     [] ev.a = "sanswer"   -> StreamAnswer(ev.arg.id, ev.arg.payload)
     [] OTHER              -> FALSE
